@@ -76,7 +76,7 @@ def roundtrip_one(desc, tmp, acc):
 
     kind = desc["kind"]
     base = dict(desc=C.show(desc))
-    for detour in (False, True, 2):
+    for detour in (False, True, 2, "shrink"):
         for fmt, ext, binary in (("json", ".json", False), ("binary", ".hgx", True)):
             acc.evaluations += 1
             h = C.build(desc, detour=detour)
